@@ -149,6 +149,8 @@ static void child (const Op * hist, int nh, int wfd)
   /* expected rule id per (target,set) and for the override: id of the latest registered rule set whose flags are satisfied */
   int exp_rule[3][NSETS], exp_over[3], nrules = 0, i, t, s, q;
   int registered_rules[3][NSETS] = { { 0 } };
+  int reg_t[MAXRULES], reg_s[MAXRULES];	/* per registration: target, set (-1: override of addw) */
+  unsigned reg_fl[MAXRULES];
   memset (&R, 0, sizeof (R));
   for (t = 0; t < 3; t++) { exp_over[t] = -1; for (s = 0; s < NSETS; s++) exp_rule[t][s] = -1; }
   v_install_handlers ();
@@ -164,6 +166,7 @@ static void child (const Op * hist, int nh, int wfd)
       unsigned fl = flagval (o->target, o->fk);
       OrcRuleSet *rs;
       int id = nrules++;
+      reg_t[id] = o->target; reg_s[id] = o->kind == 1 ? o->set : -1; reg_fl[id] = fl;
       if (o->kind == 1) {
         int k;
         rs = orc_rule_set_new (orc_opcode_set_get (setprefix[o->set]), tg, fl);
@@ -225,6 +228,42 @@ static void child (const Op * hist, int nh, int wfd)
         run_prog (p, 0, d);
         for (i = 0; i < 21; i++) e[i] = mixed ? (orc_uint16) (sat ((unsigned) S1v[i] + S2v[i]) + S1v[i]) : sat ((unsigned) S1v[i] + S2v[i]);
         if (memcmp (d, e, sizeof (d))) FAIL ("%s%s on %s computes a wrong result", pn, mixed ? "+addw" : "", tnames[t]);
+        orc_program_free (p);
+      }
+    }
+  }
+  /* the same under explicit flag vectors (orc_program_compile_full): the default flags plus the flag the CPU lacks, and
+   * (sse) the default flags without the flag the "have" rule sets require.  The rule set that must win is the latest
+   * registration whose required flags are all in the vector that was passed - not in the target's default flags. */
+  for (s = 0; s < NSETS; s++) {
+    if (!have_set[s]) continue;
+    for (t = 0; t < ntargets_used; t++) {
+      OrcTarget *tg = orc_target_get_by_name (tnames[t]);
+      unsigned def = orc_target_get_default_flags (tg), V[2];
+      int nv = 0, vi;
+      V[nv++] = def | flagval (t, 2);
+      if (t == 0) V[nv++] = def & ~flagval (t, 1);
+      for (vi = 0; vi < nv; vi++) {
+        int exp = -1, k, used = -1, n_used = 0, before[MAXRULES];
+        orc_uint16 d[24], e[24];
+        OrcProgram *p;
+        OrcCompileResult r;
+        for (k = 0; k < nrules; k++) if (reg_t[k] == t && reg_s[k] == s && (reg_fl[k] & V[vi]) == reg_fl[k]) exp = k;
+        memcpy (before, rule_calls, sizeof (before));
+        p = prog3 (probe_op[s], NULL);
+        r = orc_program_compile_full (p, tg, V[vi]);
+        for (k = 0; k < nrules; k++) if (rule_calls[k] != before[k] && reg_s[k] >= 0) { used = k; n_used++; }
+        if (exp >= 0) {
+          if (!ORC_COMPILE_RESULT_IS_SUCCESSFUL (r)) FAIL ("%s on %s with flags 0x%x: a rule set satisfied by these flags exists (registration #%d) but compilation failed (0x%x)", probe_op[s], tnames[t], V[vi], exp, r);
+          if (n_used != 1 || used != exp) FAIL ("%s on %s with flags 0x%x: rule of registration #%d used, expected #%d (latest whose flags are in the vector passed)", probe_op[s], tnames[t], V[vi], used, exp);
+        } else {
+          if (ORC_COMPILE_RESULT_IS_SUCCESSFUL (r)) FAIL ("%s on %s with flags 0x%x: compiled natively (registration #%d) although no rule set is satisfied by these flags", probe_op[s], tnames[t], V[vi], used);
+          if (ORC_COMPILE_RESULT_IS_FATAL (r)) FAIL ("%s on %s with flags 0x%x: missing rule gave a fatal result 0x%x", probe_op[s], tnames[t], V[vi], r);
+        }
+        run_prog (p, 0, d);
+        for (i = 0; i < 21; i++) e[i] = sat ((unsigned) S1v[i] + S2v[i]);
+        for (i = 21; i < 24; i++) e[i] = 0x5a5a;
+        if (memcmp (d, e, sizeof (d))) FAIL ("%s on %s with flags 0x%x computes a wrong result", probe_op[s], tnames[t], V[vi]);
         orc_program_free (p);
       }
     }
